@@ -27,6 +27,7 @@ def main() -> int:
         return subprocess.call([core.REPLAY_PY, a.replay])
     if not a.prop:
         ap.error("property id required")
+    os.environ["VERIF_TIER"] = a.tier   # read by engines that are configured before the property module runs (GX repetition depth)
     mod = importlib.import_module(f"props.{a.prop}")
     return core.run_property(a.prop, a.tier, mod.run)
 
